@@ -1,8 +1,599 @@
-//! C12 — not built yet (stub).
+//! C12 — all views and conversions of a datum agree (owned, borrowed, serde, derive).
+//!
+//! non-trivial rule: the datum is not nil (a conversion of nil has nothing to lose).
+use crate::cfg::{parser, Config};
 use crate::ctx::Ctx;
+use crate::exec::{render, Out};
+use crate::mon::guard;
+use crate::rng::{hash_str, Rng};
+use crate::val::{arr, dump_view, s, RVal};
+use liquid::model::{from_value, to_value, State, Value, ValueCow, ValueViewCmp};
+use liquid::{Object, ObjectView, ValueView};
+use serde::{Deserialize, Serialize};
+use serde_json::json;
+use std::collections::{BTreeMap, HashMap};
 
-pub fn run(_ctx: &mut Ctx) {}
+fn has_multikey_object(v: &RVal) -> bool {
+    match v {
+        RVal::Object(kv) => kv.len() > 1 || kv.iter().any(|(_, v)| has_multikey_object(v)),
+        RVal::Array(xs) => xs.iter().any(has_multikey_object),
+        _ => false,
+    }
+}
 
-pub fn replay(_j: &serde_json::Value) -> bool {
-    false
+/// everything observable about a view; `ordered` = include the text forms that depend on the
+/// iteration order of objects
+fn observe(v: &dyn ValueView, ordered: bool) -> String {
+    let states = [State::Truthy, State::DefaultValue, State::Empty, State::Blank]
+        .iter()
+        .map(|s| if v.query_state(*s) { '1' } else { '0' })
+        .collect::<String>();
+    let preds = format!(
+        "{}{}{}{}{}",
+        v.is_scalar() as u8,
+        v.is_array() as u8,
+        v.is_object() as u8,
+        v.is_state() as u8,
+        v.is_nil() as u8
+    );
+    let mut out = format!("type={} states={states} preds={preds} dump={}", v.type_name(), dump_view(&v.to_value()));
+    if ordered {
+        out.push_str(&format!(" render={:?} source={:?} kstr={:?}", v.render().to_string(), v.source().to_string(), v.to_kstr().as_str()));
+    }
+    out
+}
+
+fn gen_value(r: &mut Rng, depth: usize) -> RVal {
+    let k = if depth >= 4 { r.below(9) } else { r.below(13) };
+    match k {
+        0 => RVal::Nil,
+        1 => RVal::Bool(r.chance(1, 2)),
+        2 => RVal::Int(r.choose(&[0, 1, -1, 42, i64::MAX, i64::MIN, 1 << 53])),
+        3 => RVal::Float(r.choose(&[0.0, -0.0, 0.5, 1.0, -2.25, 1e300, 123456789.125])),
+        4 => s(r.choose(&["", " ", "a", "é", "42", "-7", "1.5", "true", "nil", "hello world", "[1]", "{}"])),
+        5 => RVal::Date(r.choose(&["2020-02-29", "1999-12-31"]).to_string()),
+        6 => RVal::DateTime(r.choose(&["2020-02-29 10:00:00 +0100", "1970-01-01 00:00:00 +0000", "2001-09-09 01:46:40.5 -0330"]).to_string()),
+        7 => s(r.choose(&["x", "Yy", "\n", "\"q\"", "a,b"])),
+        8 => RVal::Int(r.range(-5, 5)),
+        9 | 10 => {
+            let n = r.below(4);
+            arr((0..n).map(|_| gen_value(r, depth + 1)).collect())
+        }
+        _ => {
+            let n = r.below(4);
+            let keys = ["k", "size", "first", "a b", "é", "0"];
+            let mut kv: Vec<(String, RVal)> = Vec::new();
+            for _ in 0..n {
+                let k = r.choose(&keys).to_string();
+                if !kv.iter().any(|(kk, _)| kk == &k) {
+                    kv.push((k, gen_value(r, depth + 1)));
+                }
+            }
+            RVal::Object(kv)
+        }
+    }
+}
+
+fn json_representable(v: &RVal) -> bool {
+    match v {
+        RVal::Float(f) => f.is_finite(),
+        // dates are encoded as strings by design: excluded from the kind clause
+        RVal::Date(_) | RVal::DateTime(_) | RVal::Empty | RVal::Blank => false,
+        // a date-shaped string is indistinguishable from a date after the round trip
+        RVal::Str(s) => liquid::model::DateTime::from_str(s).is_none() && liquid::model::Date::from_str(s).is_none(),
+        RVal::Array(xs) => xs.iter().all(json_representable),
+        RVal::Object(kv) => kv.iter().all(|(_, v)| json_representable(v)),
+        _ => true,
+    }
+}
+
+fn has_numeric_string(v: &RVal) -> bool {
+    match v {
+        RVal::Str(s) => s.parse::<i64>().is_ok() || s.parse::<f64>().is_ok(),
+        RVal::Array(xs) => xs.iter().any(has_numeric_string),
+        RVal::Object(kv) => kv.iter().any(|(_, v)| has_numeric_string(v)),
+        _ => false,
+    }
+}
+
+fn has_state(v: &RVal) -> bool {
+    match v {
+        RVal::Empty | RVal::Blank => true,
+        RVal::Array(xs) => xs.iter().any(has_state),
+        RVal::Object(kv) => kv.iter().any(|(_, v)| has_state(v)),
+        _ => false,
+    }
+}
+
+fn has_date(v: &RVal) -> bool {
+    match v {
+        RVal::Date(_) | RVal::DateTime(_) => true,
+        RVal::Str(s) => liquid::model::DateTime::from_str(s).is_some() || liquid::model::Date::from_str(s).is_some(),
+        RVal::Array(xs) => xs.iter().any(has_date),
+        RVal::Object(kv) => kv.iter().any(|(_, v)| has_date(v)),
+        _ => false,
+    }
+}
+
+fn check_datum(ctx: &mut Ctx, rv: &RVal) {
+    let v = rv.to_liquid();
+    let ordered = !has_multikey_object(rv);
+    let base = observe(&v, ordered);
+    let want_dump = rv.dump();
+    let replay = || json!({"kind": "datum", "value": rv.to_json()});
+    // the harness's own dump must agree with the library's view of the value it built
+    if dump_view(&v) != want_dump {
+        ctx.violation("value-kind-or-content-changed:construction", &format!("built {want_dump}, the view reads {}", dump_view(&v)), replay);
+        return;
+    }
+    let r = guard(|| {
+        let mut views: Vec<(&'static str, String)> = Vec::new();
+        views.push(("&Value", observe(&&v, ordered)));
+        views.push(("as_view", observe(v.as_view(), ordered)));
+        views.push(("to_value", observe(&v.to_value(), ordered)));
+        views.push(("ValueCow::Owned", observe(&ValueCow::Owned(v.clone()), ordered)));
+        views.push(("ValueCow::Borrowed", observe(&ValueCow::Borrowed(&v), ordered)));
+        views.push(("ValueCow::as_view", observe(ValueCow::Borrowed(&v).as_view(), ordered)));
+        views.push(("Cow::into_owned", observe(&ValueCow::Borrowed(&v).into_owned(), ordered)));
+        if !rv.is_nil() {
+            views.push(("Some(v)", observe(&Some(v.clone()), ordered)));
+        }
+        if let Value::Array(a) = &v {
+            let vec: Vec<Value> = a.clone();
+            views.push(("Vec<Value>", observe(&vec, ordered)));
+        }
+        if let Value::Object(o) = &v {
+            let hm: HashMap<String, Value> = o.iter().map(|(k, v)| (k.to_string(), v.clone())).collect();
+            let bm: BTreeMap<String, Value> = o.iter().map(|(k, v)| (k.to_string(), v.clone())).collect();
+            // text forms of maps depend on their own iteration order
+            views.push(("HashMap", observe(&hm, ordered && o.len() <= 1)));
+            views.push(("BTreeMap", observe(&bm, ordered && o.len() <= 1)));
+        }
+        // pairwise equality of the views through the value model
+        let eqs = [
+            ValueViewCmp::new(&v) == ValueViewCmp::new(&v.to_value()),
+            ValueCow::Borrowed(&v) == ValueCow::Owned(v.clone()),
+            ValueCow::Borrowed(&v) == v,
+        ];
+        (views, eqs)
+    });
+    let (views, eqs) = match r {
+        Ok(x) => x,
+        Err(p) => {
+            ctx.violation(&p.key(), &format!("view access panicked at {}: {}", p.site(), p.msg), replay);
+            return;
+        }
+    };
+    let no_nan = !want_dump.contains("f:7ff8");
+    for (name, obs) in &views {
+        ctx.count(&format!("view:{name}"));
+        let mut expect = base.clone();
+        // `None`/Some wrappers and maps may only be compared on the order-free part when their
+        // own `ordered` flag differs; normalise by comparing the common prefix
+        if !obs.contains(" render=") {
+            expect = expect.split(" render=").next().unwrap_or("").to_string();
+        }
+        let obs_cmp = if !expect.contains(" render=") { obs.split(" render=").next().unwrap_or("").to_string() } else { obs.clone() };
+        if obs_cmp != expect {
+            ctx.violation(&format!("views-disagree:{name}"), &format!("datum {want_dump}: Value observes [{expect}] but {name} observes [{obs_cmp}]"), replay);
+        }
+    }
+    if no_nan && eqs.iter().any(|e| !e) {
+        ctx.violation("views-not-equal", &format!("datum {want_dump}: views of the same datum compare unequal {eqs:?}"), replay);
+    }
+    // ---- conversions ----
+    // (1) to_value(&Value) through the serde Serializer
+    match guard(|| to_value(&v)) {
+        Ok(Ok(v2)) => {
+            ctx.count("conversion:to_value");
+            // dates serialise as strings by design (kind clause excludes them)
+            if !has_date(rv) && !has_state(rv) && dump_view(&v2) != want_dump {
+                ctx.violation("serde:to_value-changes-value", &format!("to_value({want_dump}) = {}", dump_view(&v2)), replay);
+            }
+        }
+        Ok(Err(_)) => ctx.count("conversion:to_value:error"),
+        Err(p) => ctx.violation(&p.key(), &format!("to_value panicked: {}", p.msg), replay),
+    }
+    // (2) from_value::<Value>(&Value) through the serde Deserializer
+    match guard(|| from_value::<Value>(&v)) {
+        Ok(Ok(v2)) => {
+            ctx.count("conversion:from_value");
+            if !has_date(rv) && !has_state(rv) && dump_view(&v2) != want_dump {
+                let key = if has_numeric_string(rv) {
+                    "serde:from_value-turns-numeric-string-into-number"
+                } else {
+                    "serde:from_value-changes-value"
+                };
+                ctx.violation(key, &format!("from_value::<Value>({want_dump}) = {}", dump_view(&v2)), replay);
+            }
+        }
+        Ok(Err(_)) => ctx.count("conversion:from_value:error"),
+        Err(p) => ctx.violation(&p.key(), &format!("from_value panicked: {}", p.msg), replay),
+    }
+    // (3) JSON text round trip
+    if json_representable(rv) {
+        match guard(|| serde_json::to_string(&v).ok().and_then(|t| serde_json::from_str::<Value>(&t).ok().map(|v2| (t, v2)))) {
+            Ok(Some((text, v2))) => {
+                ctx.count("conversion:json-roundtrip");
+                if dump_view(&v2) != want_dump {
+                    ctx.violation("serde:json-roundtrip-changes-value", &format!("{want_dump} -> {text} -> {}", dump_view(&v2)), replay);
+                }
+                // and into an Object when it is one
+                if matches!(rv, RVal::Object(_)) {
+                    if let Ok(o) = serde_json::from_str::<Object>(&text) {
+                        if dump_view(o.as_value()) != want_dump {
+                            ctx.violation("serde:json-roundtrip-changes-value", &format!("{want_dump} -> {text} -> Object {}", dump_view(o.as_value())), replay);
+                        }
+                    }
+                }
+            }
+            Ok(None) => ctx.count("conversion:json-roundtrip:error"),
+            Err(p) => ctx.violation(&p.key(), &format!("JSON round trip panicked: {}", p.msg), replay),
+        }
+    }
+    ctx.record(hash_str(&want_dump), !rv.is_nil());
+    ctx.sample(|| json!({"datum": want_dump, "views": views.len(), "observed": base}));
+}
+
+// ---- derive vs serde ----
+
+#[derive(Clone, Debug, Serialize, Deserialize, liquid::ObjectView, liquid::ValueView)]
+struct Inner {
+    n: i64,
+    t: String,
+}
+
+#[derive(Clone, Debug, Serialize, Deserialize, liquid::ObjectView, liquid::ValueView)]
+struct Rich {
+    i: i64,
+    f: f64,
+    b: bool,
+    s: String,
+    o: Option<i64>,
+    v: Vec<i64>,
+    m: BTreeMap<String, i64>,
+    inner: Inner,
+    oi: Option<Inner>,
+}
+
+#[derive(Clone, Debug, Serialize, Deserialize, liquid::ObjectView, liquid::ValueView)]
+struct Single {
+    only: Vec<String>,
+}
+
+#[derive(Clone, Debug, Serialize, Deserialize, liquid::ObjectView, liquid::ValueView)]
+struct Empty {}
+
+#[derive(Clone, Debug, Serialize, Deserialize, PartialEq)]
+enum Choice {
+    Unit,
+    New(i64),
+    Pair(i64, String),
+    Rec { a: i64 },
+}
+
+const BATTERY: &[&str] = &[
+    "{{ x.i }}|{{ x.f }}|{{ x.b }}|{{ x.s }}|{{ x.o }}|{{ x.v | join: ',' }}|{{ x.inner.n }}|{{ x.inner.t }}|{{ x.oi.n }}",
+    "{{ x | size }}|{{ x.v | size }}|{{ x.s | size }}|{{ x.m | size }}",
+    "{% if x contains 'i' %}1{% else %}0{% endif %}{% if x contains 'zz' %}1{% else %}0{% endif %}{% if x.v contains 2 %}1{% else %}0{% endif %}",
+    "{% if x == empty %}E{% endif %}{% if x.s == empty %}e{% endif %}{% if x.v == empty %}v{% endif %}{% if x.s == blank %}b{% endif %}{% if x.o == nil %}n{% endif %}",
+    "{{ x.o | default: 'd' }}|{{ x.s | default: 'd' }}|{{ x.b | default: 'd' }}|{{ x.v | default: 'd' | join: '-' }}",
+    "{% if x.o %}T{% else %}F{% endif %}{% if x.b %}T{% else %}F{% endif %}{% if x.oi %}T{% else %}F{% endif %}{% if x.zz %}T{% else %}F{% endif %}",
+    "{% for p in x.inner %}{{ p[0] }}={{ p[1] }};{% endfor %}",
+    "{{ x.m.k }}|{{ x.m['k'] }}|{{ x.v[0] }}|{{ x.v[-1] }}|{{ x.v.first }}|{{ x.v.last }}",
+    "{% for p in y %}{{ p[0] }}={{ p[1] | join: ',' }};{% endfor %}{{ y.only | size }}{{ y | size }}",
+    "{{ z | size }}{% if z == empty %}E{% endif %}{% if z %}T{% endif %}{% for p in z %}x{% endfor %}",
+    "{{ x.zz }}",
+    "{{ x.v[5] }}",
+];
+
+fn object_api(o: &dyn ObjectView) -> String {
+    let mut keys: Vec<String> = o.keys().map(|k| k.to_string()).collect();
+    keys.sort();
+    let mut out = format!("size={} keys={keys:?}", o.size());
+    for k in keys.iter().map(|s| s.as_str()).chain(["zz", ""]) {
+        out.push_str(&format!(
+            " {k}:contains={} get={}",
+            o.contains_key(k),
+            o.get(k).map(|v| dump_view(v)).unwrap_or("~".into())
+        ));
+    }
+    let mut items: Vec<String> = o.iter().map(|(k, v)| format!("{k}={}", dump_view(v))).collect();
+    items.sort();
+    let mut vals: Vec<String> = o.values().map(|v| dump_view(v)).collect();
+    vals.sort();
+    out.push_str(&format!(" iter={items:?} values={vals:?}"));
+    out
+}
+
+fn check_struct(ctx: &mut Ctx, rich: &Rich, single: &Single, ts: &[liquid::Template]) {
+    let replay = || json!({"kind": "struct", "rich": serde_json::to_value(rich).unwrap_or_default(), "single": serde_json::to_value(single).unwrap_or_default()});
+    let conv = match guard(|| (liquid::to_object(rich), liquid::to_object(single), liquid::to_object(&Empty {}))) {
+        Ok((Ok(a), Ok(b), Ok(c))) => (a, b, c),
+        Ok(_) => {
+            ctx.violation("serde:to_object-fails-on-struct", "to_object failed on a plain struct", replay);
+            return;
+        }
+        Err(p) => {
+            ctx.violation(&p.key(), &format!("to_object panicked: {}", p.msg), replay);
+            return;
+        }
+    };
+    let empty = Empty {};
+    for (name, derived, serde_o) in [
+        ("Rich", rich as &dyn ObjectView, &conv.0),
+        ("Single", single as &dyn ObjectView, &conv.1),
+        ("Empty", &empty as &dyn ObjectView, &conv.2),
+    ] {
+        let d_obs = observe(derived.as_value(), false);
+        let s_obs = observe(serde_o.as_value(), false);
+        if d_obs != s_obs {
+            ctx.violation("derive-vs-serde:value-view-differs", &format!("{name}: derived [{d_obs}] vs serde-converted [{s_obs}]"), replay);
+        }
+        let (da, sa) = (object_api(derived), object_api(serde_o));
+        if da != sa {
+            ctx.violation("derive-vs-serde:object-api-differs", &format!("{name}: derived [{da}] vs serde-converted [{sa}]"), replay);
+        }
+        ctx.count(&format!("struct:{name}"));
+    }
+    // templates: derived globals vs serde-converted globals
+    #[derive(liquid::ObjectView, liquid::ValueView, Debug)]
+    struct Globals<'a> {
+        x: &'a Rich,
+        y: &'a Single,
+        z: Empty,
+    }
+    let g_derived = Globals { x: rich, y: single, z: Empty {} };
+    let mut g_serde = Object::new();
+    g_serde.insert("x".into(), Value::Object(conv.0.clone()));
+    g_serde.insert("y".into(), Value::Object(conv.1.clone()));
+    g_serde.insert("z".into(), Value::Object(conv.2.clone()));
+    for (k, t) in ts.iter().enumerate() {
+        let a = guard(|| t.render(&g_derived).map_err(|_| ()));
+        let b = render(t, &g_serde);
+        ctx.count("template-battery-renders");
+        let a_s = match a {
+            Ok(Ok(s)) => format!("ok:{s}"),
+            Ok(Err(())) => "err".to_string(),
+            Err(p) => {
+                ctx.violation(&p.key(), &format!("render with derived globals panicked: {}", p.msg), replay);
+                continue;
+            }
+        };
+        let b_s = match &b {
+            Out::Panic(p) => {
+                ctx.violation(&p.key(), &format!("render with serde globals panicked: {}", p.msg), replay);
+                continue;
+            }
+            other => other.summary(),
+        };
+        // iteration order of the multi-field struct is never printed; `for p in x.inner` has 2
+        // entries in unspecified order: compare as a multiset of ';'-separated items
+        let norm = |s: &str| {
+            let (head, body) = match s.strip_prefix("ok:") {
+                Some(b) => ("ok:", b),
+                None => ("", s),
+            };
+            let mut parts: Vec<&str> = body.split(';').collect();
+            parts.sort();
+            format!("{head}{}", parts.join(";"))
+        };
+        if norm(&a_s) != norm(&b_s) {
+            ctx.violation(
+                "derive-vs-serde:template-output-differs",
+                &format!("template {:?}: derived globals give {a_s:?}, serde-converted give {b_s:?}", BATTERY[k]),
+                replay,
+            );
+        }
+    }
+    // enums, tuples, options and maps on the serde side: round trip through to_value/from_value
+    for c in [Choice::Unit, Choice::New(rich.i), Choice::Pair(rich.i, rich.s.clone()), Choice::Rec { a: rich.i }] {
+        match guard(|| to_value(&c).ok().and_then(|v| from_value::<Choice>(&v).ok())) {
+            Ok(Some(back)) => {
+                ctx.count("serde:enum-roundtrip");
+                if back != c {
+                    ctx.violation("serde:enum-roundtrip-changes-value", &format!("{c:?} came back as {back:?}"), replay);
+                }
+            }
+            Ok(None) => ctx.count("serde:enum-roundtrip:unsupported"),
+            Err(p) => ctx.violation(&p.key(), &format!("enum conversion panicked: {}", p.msg), replay),
+        }
+    }
+    let tup = (rich.i, rich.s.clone(), rich.o, rich.v.clone(), rich.m.clone());
+    match guard(|| to_value(&tup).ok().and_then(|v| from_value::<(i64, String, Option<i64>, Vec<i64>, BTreeMap<String, i64>)>(&v).ok())) {
+        Ok(Some(back)) => {
+            ctx.count("serde:tuple-roundtrip");
+            if back != tup {
+                ctx.violation("serde:tuple-roundtrip-changes-value", &format!("{tup:?} came back as {back:?}"), replay);
+            }
+        }
+        Ok(None) => ctx.count("serde:tuple-roundtrip:unsupported"),
+        Err(p) => ctx.violation(&p.key(), &format!("tuple conversion panicked: {}", p.msg), replay),
+    }
+    // the struct itself: Rust -> liquid -> Rust
+    match guard(|| to_value(rich).ok().and_then(|v| from_value::<Rich>(&v).ok())) {
+        Ok(Some(back)) => {
+            ctx.count("serde:struct-roundtrip");
+            let same = serde_json::to_string(&back).ok() == serde_json::to_string(rich).ok();
+            if !same {
+                ctx.violation("serde:struct-roundtrip-changes-value", &format!("{rich:?} came back as {back:?}"), replay);
+            }
+        }
+        Ok(None) => {
+            // the numeric-string defect makes `s: "42"` come back as a number, which then fails
+            // to deserialise as String: report under the same defect class
+            ctx.violation("serde:from_value-turns-numeric-string-into-number", &format!("to_value/from_value round trip of {rich:?} failed"), replay);
+        }
+        Err(p) => ctx.violation(&p.key(), &format!("struct conversion panicked: {}", p.msg), replay),
+    }
+    ctx.record(hash_str(&format!("{rich:?}{single:?}")), true);
+}
+
+fn check_out_of_range(ctx: &mut Ctx) {
+    let replay = || json!({"kind": "out-of-range"});
+    // through Rust integer types
+    let cases: Vec<(String, Result<Value, ()>, f64)> = vec![
+        ("u64::MAX".into(), to_value(&u64::MAX).map_err(|_| ()), u64::MAX as f64),
+        ("i64::MAX+1 as u64".into(), to_value(&(i64::MAX as u64 + 1)).map_err(|_| ()), 9223372036854775808.0),
+        ("u128".into(), to_value(&(u64::MAX as u128 + 5)).map_err(|_| ()), (u64::MAX as u128 + 5) as f64),
+        ("i128 min".into(), to_value(&(i64::MIN as i128 - 1)).map_err(|_| ()), (i64::MIN as i128 - 1) as f64),
+        ("Some(u64::MAX)".into(), to_value(&Some(u64::MAX)).map_err(|_| ()), u64::MAX as f64),
+        ("vec![u64::MAX]".into(), to_value(&vec![u64::MAX]).map_err(|_| ()).map(|v| v.into_array().and_then(|a| a.into_iter().next()).unwrap_or(Value::Nil)), u64::MAX as f64),
+    ];
+    for (name, r, want) in cases {
+        ctx.count("out-of-range:rust-integer");
+        judge_out_of_range(ctx, &name, r, want, &replay);
+    }
+    // in range boundaries must stay integers
+    for (name, v, want) in [
+        ("i64::MAX", to_value(&i64::MAX), i64::MAX),
+        ("i64::MIN", to_value(&i64::MIN), i64::MIN),
+        ("i64::MAX as u64", to_value(&(i64::MAX as u64)), i64::MAX),
+        ("-1", to_value(&-1i8), -1),
+        ("0", to_value(&0u8), 0),
+    ] {
+        ctx.count("in-range:rust-integer");
+        match v {
+            Ok(v) if dump_view(&v) == format!("i:{want}") => {}
+            other => ctx.violation("serde:in-range-integer-changed", &format!("{name} converted to {:?}", other.map(|v| dump_view(&v))), replay),
+        }
+    }
+    // through JSON text
+    for (text, want) in [
+        ("18446744073709551615", 18446744073709551615.0),
+        ("9223372036854775808", 9223372036854775808.0),
+        ("-9223372036854775809", -9223372036854775809.0),
+        ("99999999999999999999", 99999999999999999999.0),
+    ] {
+        ctx.count("out-of-range:json");
+        let r = guard(|| serde_json::from_str::<Value>(text).map_err(|_| ()));
+        match r {
+            Ok(r) => judge_out_of_range(ctx, &format!("JSON {text}"), r, want, &replay),
+            Err(p) => ctx.violation(&p.key(), &format!("JSON {text} panicked: {}", p.msg), replay),
+        }
+        let r = guard(|| serde_json::from_str::<Object>(&format!("{{\"a\": {text}}}")).map_err(|_| ()).map(|o| o.get("a").cloned().unwrap_or(Value::Nil)));
+        match r {
+            Ok(r) => judge_out_of_range(ctx, &format!("JSON object {text}"), r, want, &replay),
+            Err(p) => ctx.violation(&p.key(), &format!("JSON object {text} panicked: {}", p.msg), replay),
+        }
+    }
+    for (text, want) in [("9223372036854775807", i64::MAX), ("-9223372036854775808", i64::MIN), ("0", 0), ("-1", -1)] {
+        ctx.count("in-range:json");
+        match serde_json::from_str::<Value>(text) {
+            Ok(v) if dump_view(&v) == format!("i:{want}") => {}
+            other => ctx.violation("serde:in-range-integer-changed", &format!("JSON {text} converted to {:?}", other.map(|v| dump_view(&v))), replay),
+        }
+    }
+    ctx.record(hash_str("out-of-range"), true);
+}
+
+fn judge_out_of_range(ctx: &mut Ctx, name: &str, r: Result<Value, ()>, want: f64, replay: &dyn Fn() -> serde_json::Value) {
+    match r {
+        Err(()) => ctx.count("out-of-range:rejected"),
+        Ok(v) => {
+            let d = dump_view(&v);
+            if d == format!("f:{:016x}", want.to_bits()) {
+                ctx.count("out-of-range:carried-as-float");
+            } else {
+                let rj = replay();
+                ctx.violation("serde:out-of-range-integer-became-something-else", &format!("{name} was converted to {d}; must be rejected or carried as the float {want:e}"), move || rj);
+            }
+        }
+    }
+}
+
+pub fn run(ctx: &mut Ctx) {
+    ctx.start_watchdog(120);
+    // (A)+(B): data
+    let n = ctx.scale(100_000u64, 2_000_000u64);
+    let rng = ctx.rng("c12-data");
+    // fixed edge data first
+    let fixed = vec![
+        RVal::Nil, RVal::Empty, RVal::Blank, s("42"), s("-0"), s("1e3"), s("0x10"), s(" 42"), s("9223372036854775808"),
+        RVal::Float(f64::NAN), RVal::Float(f64::INFINITY), arr(vec![]), RVal::Object(vec![]),
+    ];
+    for v in &fixed {
+        if ctx.mine(hash_str(&v.dump())) {
+            check_datum(ctx, v);
+        }
+    }
+    for i in 0..n {
+        let mut r = rng.fork(i);
+        let v = gen_value(&mut r, 0);
+        if !ctx.mine(hash_str(&v.dump())) {
+            continue;
+        }
+        ctx.set_progress(&v.dump());
+        check_datum(ctx, &v);
+    }
+    // (C): derive vs serde, every instance from small field pools
+    let p = parser(Config::Stdlib);
+    let ts: Vec<liquid::Template> = BATTERY.iter().map(|t| p.parse(t).expect("c12 battery template")).collect();
+    let ints = [0i64, 1, -7, i64::MAX];
+    let floats = [0.0f64, 1.5, -0.0];
+    let strs = ["", " ", "abc", "42", "é"];
+    let opts = [None, Some(0i64), Some(5)];
+    let vecs: [Vec<i64>; 3] = [vec![], vec![2], vec![3, 2, 1]];
+    let mut count = 0u64;
+    for &i in &ints {
+        for &f in &floats {
+            for b in [false, true] {
+                for st in strs {
+                    for o in opts {
+                        for v in &vecs {
+                            for with_map in [false, true] {
+                                count += 1;
+                                let mut m = BTreeMap::new();
+                                if with_map {
+                                    m.insert("k".to_string(), i);
+                                }
+                                let rich = Rich {
+                                    i,
+                                    f,
+                                    b,
+                                    s: st.to_string(),
+                                    o,
+                                    v: v.clone(),
+                                    m,
+                                    inner: Inner { n: i, t: st.to_string() },
+                                    oi: if b { Some(Inner { n: 1, t: "t".into() }) } else { None },
+                                };
+                                let single = Single { only: v.iter().map(|x| x.to_string()).collect() };
+                                if ctx.mine_idx(count) {
+                                    check_struct(ctx, &rich, &single, &ts);
+                                }
+                            }
+                        }
+                    }
+                }
+            }
+        }
+    }
+    ctx.extra.insert("struct_instances_enumerated".into(), json!(count));
+    // (D)
+    if ctx.shard == 0 {
+        check_out_of_range(ctx);
+    }
+}
+
+pub fn replay(j: &serde_json::Value) -> bool {
+    let mut ctx = Ctx::new("C12", crate::ctx::Tier::Quick, 1, 0, 1, None);
+    match j["kind"].as_str().unwrap_or("") {
+        "datum" => check_datum(&mut ctx, &RVal::from_json(&j["value"])),
+        "struct" => {
+            let p = parser(Config::Stdlib);
+            let ts: Vec<liquid::Template> = BATTERY.iter().map(|t| p.parse(t).expect("battery")).collect();
+            if let (Ok(rich), Ok(single)) = (serde_json::from_value::<Rich>(j["rich"].clone()), serde_json::from_value::<Single>(j["single"].clone())) {
+                check_struct(&mut ctx, &rich, &single, &ts);
+            }
+        }
+        _ => check_out_of_range(&mut ctx),
+    }
+    for v in &ctx.violations {
+        println!("VIOLATED {}: {}", v.key, v.what);
+    }
+    if ctx.violations.is_empty() {
+        println!("all views and conversions agree");
+    }
+    !ctx.violations.is_empty()
 }
